@@ -135,14 +135,14 @@ GEN = {
                 rule="point clouds whose intensity/colour attributes take every data type (single/double open/bounded, integer, scaled integer of widths 0..64, degenerate) x 10 limit classes (absent, complete same type, complete mixed, partial via XML line removal, equal, reversed, extreme, non-finite, complete other type, tiny/subnormal width) x sorted value ladders x 4 settings of the two normalisation switches; non-trivial = (type class, limit class, switch) cell in which delivered values were checked; distinct = number of such distinct cells",
                 distinct=lambda r: len([k for k in r.cover if k.startswith("cell:")]), evaluations=lambda r: r.stats.get("clouds", 0),
                 assumptions=["expected value = clamp((v-min)/(max-min)) in f64 with halved operands, tolerance 2 ulp(f32) + 2e-7", "when limits are complete but of mixed/other type either candidate range is accepted; the invariants ([0,1], no NaN, monotone) are always required", "a reader that refuses unusable limits (reversed, non-finite) when the iterator is created is not a C13 matter"]),
-    "C08": dict(workload="fuzz", extra=[], quick=(400000, 60), thorough=(12000000, 1200), both=True, abort_prop="C08",
-                rule="structure-aware mutants (37 operators: XML numbers/attributes/types/structure incl. NaN, inf, extreme integers, huge and empty prototypes, entity expansion, deep nesting, bad UTF-8; file-header, section-header, packet-header, stream-length and blob-header fields set to hostile values; payload bit flips; splices; ignored-packet chains; all pages re-sealed with the harness CRC; plus unsealed flips, truncations, extensions, tiny inputs; 25% stacked twice) of 14 bundled test files and 12 generated files, each fed to validate_crc, raw_xml, E57Reader::new, all getters, raw iterator, simple iterator (all 64 option vectors for the first two seeds, 4 otherwise), descriptor and hostile blobs; every call under catch_unwind + panic hook in a checked-arithmetic build; shard aborts are attributed to the journaled case; non-trivial = mutated input executed; distinct = distinct input byte strings (FNV-64)",
+    "C08": dict(workload="fuzz", extra=[], quick=(400000, 60), thorough=(12000000, 1200), both=True, abort_prop="C08", libfuzzer=600,
+                rule="structure-aware mutants (37 operators: XML numbers/attributes/types/structure incl. NaN, inf, extreme integers, huge and empty prototypes, entity expansion, deep nesting, bad UTF-8; file-header, section-header, packet-header, stream-length and blob-header fields set to hostile values; payload bit flips; splices; ignored-packet chains; all pages re-sealed with the harness CRC; plus unsealed flips, truncations, extensions, tiny inputs; 25% stacked twice) of 14 bundled test files and 12 generated files, each fed to validate_crc, raw_xml, E57Reader::new, all getters, raw iterator, simple iterator (all 64 option vectors for the first two seeds, 4 otherwise), descriptor and hostile blobs; every call under catch_unwind + panic hook in a checked-arithmetic build; shard aborts are attributed to the journaled case; thorough additionally drives a coverage-guided libFuzzer target (fuzz/: input = logical stream, re-paged and sealed) for 10 minutes on 16 forks as a further workload source; non-trivial = mutated input executed; distinct = distinct input byte strings (FNV-64)",
                 distinct=lambda r: len(r.nums.get("input_identity", ())), evaluations=lambda r: r.stats.get("inputs", 0),
                 extra_cov=lambda r: {"inputs_opened": r.stats.get("inputs_opened", 0), "inputs_reached_packet_decoding": r.stats.get("inputs_reached_packet_decoding", 0), "simple_iterations_with_points": r.stats.get("inputs_reached_simple_points", 0),
                                      "calls_monitored": r.stats.get("calls_monitored", 0) + r.stats.get("iterator_steps_monitored", 0), "distinct_error_classes_seen": len(r.nums.get("error_class", ())), "panics": sum(v for k, v in r.sigcounts.items() if k.startswith("C08/panic")),
                                      "per_operator_inputs": {k[9:]: v for k, v in r.cover.items() if k.startswith("operator:")}},
                 assumptions=["allocation-failure aborts belong to C09 (the allocator cap reports itself before aborting)", "iterators are driven to the first Err/None or to a yield cap of 20000 (raw) / 3000 (simple) items"]),
-    "C09": dict(workload="fuzz", extra=[], quick=(400000, 60), thorough=(12000000, 1200), both=True, abort_prop="C09",
+    "C09": dict(workload="fuzz", extra=[], quick=(400000, 60), thorough=(12000000, 1200), both=True, abort_prop="C09", libfuzzer=300,
                 rule="same mutated inputs as C08; every public call (open, each single next() of both iterators, each blob extraction) runs under a counting global allocator (peak live bytes per call, hard cap 1.5 GiB -> abort attributed to the case), M-DEV read/byte counters reset per call and a yield counter; budgets: peak <= 256*|input| + 64 MiB, device bytes <= 64*|input| + 16 MiB, device reads <= |input|/4 + 4096, Ok items <= recordCount; a 60 s+ watchdog per shard re-runs the journaled case alone before calling it non-terminating; non-trivial = mutated input executed; distinct = distinct input byte strings",
                 distinct=lambda r: len(r.nums.get("input_identity", ())), evaluations=lambda r: r.stats.get("inputs", 0),
                 extra_cov=lambda r: {"calls_monitored": r.stats.get("calls_monitored", 0) + r.stats.get("iterator_steps_monitored", 0), "max_peak_bytes_in_one_call": r.stats.get("max_peak_bytes_per_call", 0), "max_peak_over_input_size": r.stats.get("max_peak_over_input_x1000", 0) / 1000.0,
@@ -193,9 +193,14 @@ def generic(prop, tier, seed):
         if tier == "thorough" and g.get("both"):
             b2 = build("release")
             res.merge(run_shards(b2, g["workload"], extra, cases // 2, secs // 2, seed + 1000003, tier, wd, "release", prop, abort_prop=g.get("abort_prop")))
+        if tier == "thorough" and g.get("libfuzzer"):
+            libfuzzer_stage(prop, seed, g["libfuzzer"], wd, res)
     finally:
         cleanup(wd)
-    return finish(prop, tier, seed, level(prop), res, g["rule"], g["distinct"](res), g["evaluations"](res), g["assumptions"], t0, g.get("extra_cov", lambda r: {})(res), exhaustive=g.get("exhaustive"))
+    extra = g.get("extra_cov", lambda r: {})(res)
+    if g.get("libfuzzer") and tier == "thorough":
+        extra.update({"libfuzzer_executions": res.stats.get("libfuzzer_executions", 0), "libfuzzer_coverage_edges": res.stats.get("libfuzzer_coverage_edges", 0)})
+    return finish(prop, tier, seed, level(prop), res, g["rule"], g["distinct"](res), g["evaluations"](res), g["assumptions"], t0, extra, exhaustive=g.get("exhaustive"))
 
 
 def c07(prop, tier, seed):
@@ -249,6 +254,61 @@ def c07(prop, tier, seed):
                   "exhaustive_part": "all 8192 single-bit flips of every page of every generated file"})
     assumptions = ["raw_xml() is documented to use the header fields without validation (salvage tool) and is not part of the 'Err or equal' oracle", "detection is asserted only inside CRC-32C's guaranteed classes (<=3 bits per page, one burst <=32 bits); for random overwrites only 'Err or equal'", "header() is among the compared results"]
     return finish(prop, tier, seed, level(prop), res, rule, distinct, res.stats.get("variants", 0), assumptions, t0, extra)
+
+
+def libfuzzer_stage(prop, seed, secs, wd, res):
+    """Thorough-only extra workload source for C08/C09: a coverage-guided libFuzzer target (fuzz/) whose input is the
+    logical stream of a file (paged, sealed and given a consistent header before it is parsed). The monitor is still
+    the process: a crash artefact (panic/abort) is a C08 violation, an out-of-memory artefact a C09 violation, a
+    timeout artefact is inconclusive (wall clock)."""
+    from e57ref import crc
+    fdir = os.path.join(VERIF, "fuzz", "fuzz")
+    lock = os.path.join(VERIF, "fuzz", "Cargo.lock")
+    if not os.path.exists(lock):
+        shutil.copy(os.path.join(driver.REPO, "Cargo.lock"), lock)
+    corpus = os.path.join(wd, "corpus")
+    art = os.path.join(wd, "artifacts") + "/"
+    os.makedirs(corpus)
+    os.makedirs(art)
+    n = 0
+    for f in glob.glob(os.path.join(driver.REPO, "testdata", "*.e57")):
+        b = open(f, "rb").read()
+        if len(b) <= 60000 and len(b) % 1024 == 0:
+            open(os.path.join(corpus, os.path.basename(f) + ".log"), "wb").write(crc.logical(b))
+            n += 1
+    env = dict(driver.ENV)
+    env.pop("CARGO_NET_OFFLINE", None)  # cargo fuzz passes its own flags; the vendored registry is used anyway
+    env["CARGO_NET_OFFLINE"] = "true"
+    p = subprocess.run(["cargo", "+nightly", "fuzz", "build", "read_suite"], cwd=fdir, env=env, stdout=subprocess.PIPE, stderr=subprocess.STDOUT, text=True)
+    if p.returncode != 0:
+        res.inconclusive.append({"why": "libFuzzer target did not build (nightly toolchain / cargo-fuzz unavailable?)", "tail": p.stdout[-600:]})
+        return
+    cmd = ["cargo", "+nightly", "fuzz", "run", "read_suite", corpus, "--", f"-max_total_time={secs}", f"-fork={NCPU}", "-timeout=10", "-rss_limit_mb=2048", "-max_len=60000", "-len_control=0", f"-seed={seed}", f"-artifact_prefix={art}"]
+    try:
+        p = subprocess.run(cmd, cwd=fdir, env=env, stdout=subprocess.PIPE, stderr=subprocess.STDOUT, text=True, timeout=secs + 600)
+        out = p.stdout
+    except subprocess.TimeoutExpired as e:
+        out = (e.stdout or b"").decode(errors="replace") if isinstance(e.stdout, bytes) else (e.stdout or "")
+        res.inconclusive.append({"why": "libFuzzer run exceeded its wall-clock watchdog"})
+    import re
+    execs = [int(x) for x in re.findall(r"^#(\d+):", out, re.M)]
+    cov = [int(x) for x in re.findall(r"cov: (\d+)", out)]
+    res.stats["libfuzzer_executions"] = max(execs) if execs else 0
+    res.stats["libfuzzer_coverage_edges"] = max(cov) if cov else 0
+    res.stats["libfuzzer_seed_inputs"] = n
+    rdir = os.path.join(VERIF, "replays", prop)
+    for a in sorted(glob.glob(art + "*")):
+        base = os.path.basename(a)
+        kind = base.split("-")[0]
+        if kind == "timeout":
+            res.inconclusive.append({"why": "libFuzzer timeout artefact (wall clock, not a verdict)", "file": base})
+            continue
+        vprop = "C09" if kind == "oom" else "C08"
+        os.makedirs(os.path.join(VERIF, "fuzz", "findings"), exist_ok=True)
+        keep = os.path.join(VERIF, "fuzz", "findings", base)
+        shutil.copy(a, keep)
+        m = re.search(r"panicked at ([^\n]+)", out)
+        res.viols.append({"prop": vprop, "sig": f"{vprop}/libfuzzer/{kind}/" + textclass(m.group(1) if m else "no-panic-message", 60), "detail": f"libFuzzer artefact {keep} (logical stream; reproduce with: cd fuzz/fuzz && cargo +nightly fuzz run read_suite {keep})", "workload": "libfuzzer", "seed": seed, "case": 0, "args": None, "files": [keep]})
 
 
 PLANS = {p: roundtrip for p in RT}
